@@ -1,9 +1,10 @@
 """C12 translator items: the readable sensor statuses and the status width used by
 sensordata.remove_duplicates_and_invalid_values (fail-closed on any other shape)."""
 import ast
+import os
 import re
 
-from vh.translate import TranslateError, _parse, coq_strings
+from vh.translate import TranslateError, _parse, coq_strings, coq_Z
 
 
 def _find_func(tree, name, rel):
@@ -267,3 +268,541 @@ def item_virtual_sensors(repo, out):
 
 
 ITEMS.append(item_virtual_sensors)
+
+
+# ---------------------------------------------------------------------------------------------------------------
+# Session 5: whole-function shape matching.  The katdal functions the hand-written model mirrors are compared,
+# statement by statement, with a PATTERN written here as Python source; the constants the model uses are bound by
+# placeholders and emitted into Generated.v.  Conventions of a pattern:
+#   K_xxx  (a Name)       any constant (str / int / float / bool / None, a negated number, np.nan): bound, emitted
+#   A_xxx  (an attribute) any attribute name: bound
+#   MSG_x  (a Name)       any expression (only used for exception / log message arguments): not bound
+#   X_xxx  (a Name)       any expression (translated by another item or irrelevant to the result): not bound
+# Docstrings are dropped; DIAGNOSTIC statements (logger calls, assignments to `*_differs` names, and if / for
+# statements consisting only of such statements) are dropped on both sides.  Everything else (statement order,
+# operators, argument order, keyword names, default arguments, decorators) must be identical -> TranslateError.
+class _NoMatch(Exception):
+    pass
+
+
+def _is_diag(st):
+    if isinstance(st, ast.Expr) and isinstance(st.value, ast.Call):
+        f = st.value.func
+        return isinstance(f, ast.Attribute) and isinstance(f.value, ast.Name) and f.value.id == 'logger'
+    if isinstance(st, ast.Assign):
+        return all(isinstance(t, ast.Name) and t.id.endswith('_differs') for t in st.targets)
+    if isinstance(st, (ast.If, ast.For)):
+        return all(_is_diag(s) for s in st.body) and all(_is_diag(s) for s in st.orelse) and bool(st.body)
+    return False
+
+
+def _stmts(body):
+    body = list(body)
+    if body and isinstance(body[0], ast.Expr) and isinstance(body[0].value, ast.Constant) \
+            and isinstance(body[0].value.value, str):
+        body = body[1:]
+    return [s for s in body if not _is_diag(s)]
+
+
+def _const_of(node):
+    if isinstance(node, ast.Constant):
+        return True, node.value
+    if isinstance(node, ast.UnaryOp) and isinstance(node.op, ast.USub) and isinstance(node.operand, ast.Constant) \
+            and isinstance(node.operand.value, (int, float)) and not isinstance(node.operand.value, bool):
+        return True, -node.operand.value
+    if isinstance(node, ast.Attribute) and isinstance(node.value, ast.Name) and node.value.id == 'np' and node.attr == 'nan':
+        return True, 'np.nan'
+    return False, None
+
+
+def _unify(p, a, env, where):
+    if isinstance(p, ast.Name) and p.id.startswith('K_'):
+        ok, v = _const_of(a)
+        if not ok:
+            raise _NoMatch('%s: expected a constant for %s, found %s' % (where, p.id, ast.dump(a)[:80]))
+        if p.id in env and (env[p.id] != v or type(env[p.id]) is not type(v)):
+            raise _NoMatch('%s: %s bound to both %r and %r' % (where, p.id, env[p.id], v))
+        env[p.id] = v
+        return
+    if isinstance(p, ast.Name) and (p.id.startswith('MSG_') or p.id.startswith('X_')):
+        if not isinstance(a, ast.expr):
+            raise _NoMatch('%s: expected an expression for %s' % (where, p.id))
+        return
+    if type(p) is not type(a):
+        raise _NoMatch('%s: expected %s, found %s (line %s)' % (where, type(p).__name__, type(a).__name__,
+                                                               getattr(a, 'lineno', '?')))
+    for field in p._fields:
+        if field in ('type_comment', 'kind', 'ctx', 'type_params'):
+            continue
+        pv, av = getattr(p, field, None), getattr(a, field, None)
+        w = '%s.%s' % (where, field)
+        if field == 'attr' and isinstance(pv, str) and pv.startswith('A_'):
+            if pv in env and env[pv] != av:
+                raise _NoMatch('%s: %s bound to both %r and %r' % (w, pv, env[pv], av))
+            env[pv] = av
+            continue
+        if field in ('body', 'orelse', 'finalbody') and isinstance(pv, list):
+            pv, av = _stmts(pv), _stmts(av)
+        if isinstance(pv, list):
+            if not isinstance(av, list) or len(pv) != len(av):
+                raise _NoMatch('%s: expected %d element(s), found %d (line %s)'
+                               % (w, len(pv), len(av) if isinstance(av, list) else -1, getattr(a, 'lineno', '?')))
+            for i, (x, y) in enumerate(zip(pv, av)):
+                if isinstance(x, ast.AST):
+                    _unify(x, y, env, '%s[%d]' % (w, i))
+                elif x != y:
+                    raise _NoMatch('%s[%d]: %r != %r' % (w, i, x, y))
+        elif isinstance(pv, ast.AST):
+            if not isinstance(av, ast.AST):
+                raise _NoMatch('%s: missing' % w)
+            _unify(pv, av, env, w)
+        elif pv != av:
+            raise _NoMatch('%s: expected %r, found %r (line %s)' % (w, pv, av, getattr(a, 'lineno', '?')))
+    if isinstance(p, (ast.Name, ast.Attribute, ast.Subscript)) and type(p.ctx) is not type(a.ctx):
+        raise _NoMatch('%s: load/store context differs' % where)
+
+
+def _match_function(repo, rel, qualname, pattern_src):
+    """unify the function `qualname` (`f` or `Class.f`) of `rel` with the pattern; returns the bindings"""
+    tree = _parse(repo, rel)
+    scope = tree
+    parts = qualname.split('.')
+    if len(parts) == 2:
+        cls = [n for n in tree.body if isinstance(n, ast.ClassDef) and n.name == parts[0]]
+        if len(cls) != 1:
+            raise TranslateError('%s: class %s not found' % (rel, parts[0]))
+        scope = cls[0]
+    fns = [n for n in scope.body if isinstance(n, ast.FunctionDef) and n.name == parts[-1]]
+    if len(fns) != 1:
+        raise TranslateError('%s: expected exactly one function %s' % (rel, qualname))
+    import textwrap
+    pat = ast.parse(textwrap.dedent(pattern_src)).body[0]
+    env = {}
+    try:
+        _unify(pat, fns[0], env, qualname)
+    except _NoMatch as e:
+        raise TranslateError('%s: %s no longer has the shape the model mirrors: %s' % (rel, qualname, e))
+    return env
+
+
+def _coq_bool(b):
+    if not isinstance(b, bool):
+        raise TranslateError('expected True/False, found %r' % (b,))
+    return 'true' if b else 'false'
+
+
+def _coq_int(v, what):
+    if isinstance(v, bool) or not isinstance(v, (int, float)) or v != int(v):
+        raise TranslateError('%s: expected an integral number, found %r' % (what, v))
+    return coq_Z(int(v))
+
+
+def _coq_str(v, what):
+    if not isinstance(v, str):
+        raise TranslateError('%s: expected a string, found %r' % (what, v))
+    return coq_strings((v,))[1:-1]
+
+
+P_CLEANUP = '''
+def remove_duplicates_and_invalid_values(sensor):
+    x = sensor.timestamp
+    y = sensor.value
+    z = sensor.status
+    sort_ind = np.argsort(x, kind=K_sort)
+    x = x[sort_ind]
+    y = y[sort_ind]
+    if z is not None:
+        z = z[sort_ind]
+    last_of_run = np.asarray(list(np.diff(x) != K_zero) + [K_last])
+    unique_ind = last_of_run.nonzero()[0]
+    replacement = unique_ind[len(unique_ind) - np.cumsum(last_of_run[::-1])[::-1]]
+    if z is not None:
+        status = z[unique_ind].astype(K_cast)
+        unique_ind = unique_ind[X_filter]
+    return SensorData(sensor.name, x[unique_ind], y[unique_ind])
+'''
+
+P_DUMMY = '''
+def dummy_sensor_getter(name, value=None, dtype=np.float64, timestamp=K_ts):
+    if value is None:
+        if np.issubdtype(dtype, np.floating):
+            value = np.dtype(dtype).type(K_float)
+        elif np.issubdtype(dtype, np.integer):
+            value = np.dtype(dtype).type(K_int)
+        elif np.issubdtype(dtype, np.bytes_) or np.issubdtype(dtype, np.str_):
+            value = K_str
+        elif np.issubdtype(dtype, np.bool_):
+            value = K_bool
+    else:
+        dtype = infer_dtype([value])
+    if dtype == object:
+        value = ComparableArrayWrapper(value)
+    return SimpleSensorGetter(name, np.array([timestamp]), np.array([value]))
+'''
+
+P_EXTRACT = '''
+@staticmethod
+def _extract(sensor_getter, timestamps, dump_period, **props):
+    sensor_data = sensor_getter.get()
+    if sensor_data:
+        time_offset = props.get('time_offset', K_off)
+        sensor_data = SensorData(sensor_data.name, sensor_data.timestamp + time_offset,
+                                 sensor_data.value, sensor_data.status)
+        sensor_data = remove_duplicates_and_invalid_values(sensor_data)
+    if not sensor_data:
+        sensor_data = dummy_sensor_getter(sensor_data.name, value=props.get('initial_value'),
+                                          dtype=sensor_data.value.dtype).get()
+    categ = props.get('categorical', not np.issubdtype(sensor_data.value.dtype, np.floating))
+    props['categorical'] = categ
+    if categ:
+        sensor_data = sensor_to_categorical(sensor_data.timestamp, sensor_data.value,
+                                            timestamps, dump_period, **props)
+    else:
+        sensor_timestamps = sensor_data.timestamp
+        sensor_data = np.interp(timestamps, sensor_timestamps, sensor_data.value)
+    return sensor_data
+'''
+
+P_GET = '''
+def get(self, name, select=K_select, extract=K_extract, **kwargs):
+    if select and not extract:
+        raise ValueError(MSG_1)
+    with self._lock:
+        try:
+            sensor_data = self._raw[name]
+        except KeyError:
+            for pattern, create_sensor in self.virtual.items():
+                pattern = re.sub(K_varpat, lambda m: K_varfmt.format(m.group(0)[1:-1]), pattern)
+                match = re.A_matchfn(pattern, name)
+                if match:
+                    sensor_data = create_sensor(self, name, **match.groupdict())
+                    break
+            else:
+                if self.store:
+                    start_time = self.timestamps[0] - self.dump_period - K_before
+                    end_time = self.timestamps[-1] + self.dump_period + K_after
+                    sensor_data = get_sensor_from_katstore(self.store, name, start_time, end_time)
+                else:
+                    raise KeyError(MSG_2)
+        if isinstance(sensor_data, SensorGetter) and extract:
+            props = self._get_props(name, self.props, **kwargs)
+            self.timestamps = self.timestamps[:] if not isinstance(self.timestamps, np.ndarray) else self.timestamps
+            sensor_data = self._extract(sensor_data, self.timestamps, self.dump_period, **props)
+            self._raw[name] = sensor_data
+    return sensor_data[self.keep] if select else sensor_data
+'''
+
+P_GETITEM = '''
+def __getitem__(self, name):
+    return self.get(name, select=K_sel)
+'''
+
+P_SETKEEP = '''
+def _set_keep(self, keep=None):
+    if keep is not None:
+        self.keep = keep
+'''
+
+P_INIT = '''
+def __init__(self, cache, timestamps, dump_period, keep=slice(None), props=None, virtual={}, aliases={}, store=None):
+    super().__init__()
+    self._lock = threading.RLock()
+    self._raw = dict(cache)
+    self.timestamps = timestamps
+    self.dump_period = dump_period
+    self.keep = keep
+    self.props = props if props is not None else {}
+    self.virtual = virtual
+    for alias, original in aliases.items():
+        self.add_aliases(alias, original)
+    self.store = store
+'''
+
+P_ALIASES = '''
+def add_aliases(self, alias, original):
+    for name, data in list(self._raw.items()):
+        if name.endswith(original):
+            self._raw[name.replace(original, alias)] = data
+'''
+
+P_SETITEM = '''
+def __setitem__(self, key, item):
+    with self._lock:
+        self._raw[key] = item
+'''
+
+P_DELITEM = '''
+def __delitem__(self, key):
+    with self._lock:
+        del self._raw[key]
+'''
+
+P_KATSTORE = '''
+def get_sensor_from_katstore(store, name, start_time, end_time):
+    if not str.isidentifier(name):
+        raise KeyError(MSG_1)
+    with requests.Session() as session:
+        url = MSG_2
+        params = {'sensor': name, 'start_time': start_time, 'end_time': end_time,
+                  'limit': K_limit, 'include_value_time': K_ivt}
+        try:
+            response = session.get(url, params=params)
+        except requests.exceptions.ConnectionError as exc:
+            err = ConnectionError(MSG_3)
+            raise err from exc
+        with response:
+            try:
+                response.raise_for_status()
+                sensor_data = response.json()['data']
+                samples = [(rec['value_time'], rec['value'], rec['status'])
+                           for rec in sensor_data if rec['sensor'] == name]
+            except (ValueError, IndexError, TypeError, KeyError,
+                    requests.exceptions.RequestException) as exc:
+                err = RuntimeError(MSG_4)
+                raise err from exc
+        if not samples:
+            raise KeyError(MSG_5)
+        samples = np.rec.fromrecords(samples, names='timestamp,value,status')
+        return RecordSensorGetter(samples, name)
+'''
+
+P_COMMON_DTYPE = '''
+def common_dtype(sensor_data_sequence):
+    dtypes = [sd.dtype for sd in sensor_data_sequence]
+    return np.result_type(*dtypes) if dtypes else None
+'''
+
+P_CGET_PARTS = '''
+def _get(self, name, **kwargs):
+    split_data = []
+    for cache in self.caches:
+        try:
+            sensor_data = cache.get(name, **kwargs)
+        except KeyError:
+            split_data.append(None)
+        else:
+            split_data.append(sensor_data)
+    return split_data
+'''
+
+P_CGET = '''
+def get(self, name, select=K_select, extract=K_extract, **kwargs):
+    split_data = self._get(name, select=select, extract=extract, **kwargs)
+    if all(sd is None for sd in split_data):
+        raise KeyError(MSG_1)
+    if not extract and not all(sd is None or isinstance(sd, SensorGetter) for sd in split_data):
+        extract = True
+        split_data = self._get(name, select=select, extract=extract, **kwargs)
+    if not extract:
+        split_data = [sd for sd in split_data if sd is not None]
+        return ConcatenatedSensorGetter(split_data)
+    props = self._get_props(name, self.props, **kwargs)
+    if any(sd is None for sd in split_data):
+        if select:
+            split_data2 = self._get(name, select=False, extract=True, **kwargs)
+        else:
+            split_data2 = split_data
+        split_data2 = [sd for sd in split_data2 if sd is not None]
+        dtype = common_dtype(split_data2)
+        dummy = dummy_sensor_getter(name, value=props.get('initial_value'), dtype=dtype)
+        as_array = not np.issubdtype(dtype, np.floating) and \\
+            not any(isinstance(sd, CategoricalData) for sd in split_data2)
+        for i, cache in enumerate(self.caches):
+            if split_data[i] is None:
+                filler = self._extract(dummy, cache.timestamps, cache.dump_period, **props)
+                if as_array and isinstance(filler, CategoricalData):
+                    filler = np.array(filler[:])
+                cache[name] = filler
+                split_data[i] = cache.get(name, select=select, extract=True, **kwargs)
+    if any(isinstance(sd, CategoricalData) for sd in split_data):
+        return concatenate_categorical(split_data, **props)
+    else:
+        if any(isinstance(sd, np.ndarray) for sd in split_data):
+            return np.concatenate(split_data)
+        else:
+            return sum(split_data, [])
+'''
+
+P_CSETKEEP = '''
+def _set_keep(self, keep=None):
+    if keep is not None:
+        self.keep = keep
+        for n, cache in enumerate(self.caches):
+            cache._set_keep(keep[self._segments[n]:self._segments[n + 1]])
+'''
+
+P_CSETITEM = '''
+def __setitem__(self, name, data):
+    if isinstance(data, CategoricalData):
+        split_data = data.partition(self._segments)
+        for n, cache in enumerate(self.caches):
+            cache[name] = split_data[n]
+    else:
+        for n, cache in enumerate(self.caches):
+            cache[name] = data[self._segments[n]:self._segments[n + 1]]
+'''
+
+
+P_CALC_DELAY = '''
+def _calc_delay(cache, name, inp):
+    stream = cache.get('Correlator/antenna_channelised_voltage_stream')[0]
+    sync_time = cache.get('Correlator/sync_time')[0]
+    scale_factor_timestamp = cache.get('Correlator/scale_factor_timestamp')[0]
+    getter = cache.get(f'{stream}_{inp}_delay', extract=False)
+    sensor_data = getter.get()
+    values = [ComparableArrayWrapper.unwrap(v) for v in sensor_data.value]
+    adc_sample_counts, delays, delay_rates, phases, phase_rates = zip(*values)
+    times = sync_time + np.array(adc_sample_counts) / scale_factor_timestamp
+    final_time = max(times[-1], cache.timestamps[-1]) + K_pad
+    next_times = np.r_[times[1:] - K_eps, final_time]
+    next_delays = delays + delay_rates * (next_times - times)
+    next_phases = phases + phase_rates * (next_times - times)
+    times = np.c_[times, next_times].ravel()
+    delays = np.c_[delays, next_delays].ravel()
+    phases = np.c_[phases, next_phases].ravel()
+    delay_data = SimpleSensorGetter(name, times, delays)
+    phase_data = SimpleSensorGetter(name, times, phases)
+    cache[name.replace('applied_phase', 'applied_delay')] = delay_data
+    cache[name.replace('applied_delay', 'applied_phase')] = phase_data
+    return delay_data if name.endswith('delay') else phase_data
+'''
+
+
+def item_v4_delay_shape(repo, out):
+    e = _match_function(repo, 'katdal/visdatav4.py', '_calc_delay', P_CALC_DELAY)
+    eps = e['K_eps']
+    if isinstance(eps, bool) or not isinstance(eps, (int, float)) or eps <= 0 or abs(round(1 / eps) * eps - 1) > 1e-9:
+        raise TranslateError('katdal/visdatav4.py:_calc_delay: interpolation end point offset %r is not 1/N' % (eps,))
+    out.append('Definition v4_delay_eps_inv : Z := %s.' % coq_Z(int(round(1 / eps))))
+    out.append('Definition v4_delay_final_pad : Z := %s.' % _coq_int(e['K_pad'], 'final_time padding'))
+    out.append('Definition v4_delay_steps : list string := %s.'
+               % coq_strings(('times=sync+count/scale', 'final=max(last update,last dump)+pad', 'next_times=times[1:]-eps,final',
+                              'next=value+rate*(next_times-times)', 'interleave', 'store delay and phase getters')))
+
+
+ITEMS.append(item_v4_delay_shape)
+
+
+def item_sensor_api_shape(repo, out):
+    sd, cd = 'katdal/sensordata.py', 'katdal/concatdata.py'
+    e = _match_function(repo, sd, 'remove_duplicates_and_invalid_values', P_CLEANUP)
+    if e['K_zero'] != 0 or isinstance(e['K_zero'], bool) or e['K_last'] is not True:
+        raise TranslateError('%s: last_of_run is not `list(np.diff(x) != 0) + [True]`' % sd)
+    m = re.fullmatch(r'\|?S(\d+)', str(e['K_cast']))
+    if not m:
+        raise TranslateError('%s: unexpected status cast %r' % (sd, e['K_cast']))
+    out.append('Definition sensor_sort_kind : string := %s.' % _coq_str(e['K_sort'], 'argsort kind'))
+    out.append('Definition sensor_dup_rule : string := "last"%string.')
+    e = _match_function(repo, sd, 'dummy_sensor_getter', P_DUMMY)
+    out.append('Definition sensor_dummy_float_is_nan : bool := %s.' % ('true' if e['K_float'] == 'np.nan' else 'false'))
+    if e['K_float'] != 'np.nan':
+        raise TranslateError('%s: the float dummy value is %r, the model only knows NaN' % (sd, e['K_float']))
+    out.append('Definition sensor_dummy_int : Z := %s.' % _coq_int(e['K_int'], 'integer dummy'))
+    out.append('Definition sensor_dummy_str : string := %s.' % _coq_str(e['K_str'], 'string dummy'))
+    out.append('Definition sensor_dummy_bool : bool := %s.' % _coq_bool(e['K_bool']))
+    out.append('Definition sensor_dummy_timestamp : Z := %s.' % _coq_int(e['K_ts'], 'dummy timestamp'))
+    out.append('Definition sensor_dummy_order : list string := %s.' % coq_strings(('floating', 'integer', 'string', 'bool')))
+    e = _match_function(repo, sd, 'SensorCache._extract', P_EXTRACT)
+    out.append('Definition sensor_offset_default : Z := %s.' % _coq_int(e['K_off'], 'time_offset default'))
+    out.append('Definition sensor_extract_steps : list string := %s.'
+               % coq_strings(('get', 'shift-copy', 'clean', 'dummy-if-empty', 'decide-categorical', 'interp')))
+    e = _match_function(repo, sd, 'SensorCache.get', P_GET)
+    out.append('Definition sensor_get_select_default : bool := %s.' % _coq_bool(e['K_select']))
+    out.append('Definition sensor_get_extract_default : bool := %s.' % _coq_bool(e['K_extract']))
+    out.append('Definition virtual_var_pattern : string := %s.' % _coq_str(e['K_varpat'], 'variable pattern'))
+    out.append('Definition virtual_var_format : string := %s.' % _coq_str(e['K_varfmt'], 'variable format'))
+    if e['A_matchfn'] not in ('match', 'fullmatch'):
+        raise TranslateError('%s: template test is re.%s, expected match / fullmatch' % (sd, e['A_matchfn']))
+    out.append('Definition virtual_match_fn : string := %s.' % _coq_str(e['A_matchfn'], 'match function'))
+    out.append('Definition katstore_before : Z := %s.' % _coq_int(e['K_before'], 'katstore window'))
+    out.append('Definition katstore_after : Z := %s.' % _coq_int(e['K_after'], 'katstore window'))
+    out.append('Definition sensor_get_steps : list string := %s.'
+               % coq_strings(('select-needs-extract', 'raw', 'virtual-templates-in-order', 'store-if-truthy', 'KeyError',
+                              'extract-getter-and-cache', 'select-by-keep')))
+    e = _match_function(repo, sd, 'SensorCache.__getitem__', P_GETITEM)
+    out.append('Definition sensor_getitem_select : bool := %s.' % _coq_bool(e['K_sel']))
+    _match_function(repo, sd, 'SensorCache._set_keep', P_SETKEEP)
+    _match_function(repo, sd, 'SensorCache.__init__', P_INIT)
+    out.append('Definition sensor_keep_default : string := "slice(None)"%string.')
+    _match_function(repo, sd, 'SensorCache.add_aliases', P_ALIASES)
+    _match_function(repo, sd, 'SensorCache.__setitem__', P_SETITEM)
+    _match_function(repo, sd, 'SensorCache.__delitem__', P_DELITEM)
+    out.append('Definition sensor_alias_rule : list string := %s.' % coq_strings(('endswith', 'replace')))
+    _match_function(repo, sd, 'get_sensor_from_katstore', P_KATSTORE)
+    out.append('Definition katstore_checks : list string := %s.'
+               % coq_strings(('isidentifier', 'sensor==name', 'nonempty')))
+    _match_function(repo, cd, 'common_dtype', P_COMMON_DTYPE)
+    _match_function(repo, cd, 'ConcatenatedSensorCache._get', P_CGET_PARTS)
+    e = _match_function(repo, cd, 'ConcatenatedSensorCache.get', P_CGET)
+    out.append('Definition concat_get_select_default : bool := %s.' % _coq_bool(e['K_select']))
+    out.append('Definition concat_get_extract_default : bool := %s.' % _coq_bool(e['K_extract']))
+    _match_function(repo, cd, 'ConcatenatedSensorCache._set_keep', P_CSETKEEP)
+    _match_function(repo, cd, 'ConcatenatedSensorCache.__setitem__', P_CSETITEM)
+    out.append('Definition concat_fill_steps : list string := %s.'
+               % coq_strings(('parts', 'KeyError-if-all-missing', 're-extract-if-partly-extracted', 'props',
+                              'common-dtype-of-unselected-parts', 'dummy(initial_value,dtype)', 'extract-dummy-per-part',
+                              'array-if-non-float-and-no-categorical', 'write-back', 'concatenate')))
+
+
+ITEMS.append(item_sensor_api_shape)
+
+
+# ---------------------------------------------------------------------------------------------------------------
+# The virtual-sensor registries IN DICT ORDER (first matching template wins) and the regex subset their templates
+# use: literal characters [A-Za-z0-9_/], classes [abc] of such characters, variables {ident}.  Anything else in a
+# registered template (another metacharacter, a range, a negated class, a repeated variable name) fails closed -
+# the model's matcher (Model/SensorTmpl.v) only knows this subset.
+_T_LIT = set('abcdefghijklmnopqrstuvwxyzABCDEFGHIJKLMNOPQRSTUVWXYZ0123456789_/')
+
+
+def _check_template(t, where):
+    i, seen = 0, set()
+    while i < len(t):
+        c = t[i]
+        if c == '{':
+            j = t.find('}', i)
+            ident = t[i + 1:j] if j > 0 else ''
+            if not re.fullmatch(r'[a-zA-Z_][a-zA-Z0-9_]*', ident) or ident in seen:
+                raise TranslateError('%s: template %r: bad or repeated variable at %d' % (where, t, i))
+            seen.add(ident)
+            i = j + 1
+        elif c == '[':
+            j = t.find(']', i)
+            body = t[i + 1:j] if j > 0 else ''
+            if not body or not set(body) <= (_T_LIT - {'/'}):
+                raise TranslateError('%s: template %r: unsupported character class at %d' % (where, t, i))
+            i = j + 1
+        elif c in _T_LIT:
+            i += 1
+        else:
+            raise TranslateError('%s: template %r: character %r is outside the modelled regex subset' % (where, t, c))
+
+
+def item_virtual_registry_order(repo, out):
+    trees = {rel: _parse(repo, rel) for rel, _ in VIRT_REGISTRIES}
+    default = _registry(trees['katdal/dataset.py'], 'DEFAULT_VIRTUAL_SENSORS', 'katdal/dataset.py')
+    regs = []
+    for rel, var in VIRT_REGISTRIES:
+        own = _registry(trees[rel], var, rel)
+        entries = list(own) if rel == 'katdal/dataset.py' else list(default)
+        if rel != 'katdal/dataset.py':
+            for t, f in own:                      # dict.update: an existing key keeps its position
+                if t in [x for x, _ in entries]:
+                    entries = [(x, f if x == t else g) for x, g in entries]
+                else:
+                    entries.append((t, f))
+        for t, _ in entries:
+            _check_template(t, rel)
+        if len({t for t, _ in entries}) != len(entries):
+            raise TranslateError('%s: duplicate template key in a dict literal' % rel)
+        regs.append((os.path.basename(rel)[:-3], entries))
+    out.append('Definition virtual_registries : list (string * list (string * string)) :=')
+    rows = []
+    for mod, entries in regs:
+        rows.append('  (%s, [%s])' % (coq_strings((mod,))[1:-1],
+                                      '; '.join('(%s, %s)' % (coq_strings((t,))[1:-1], coq_strings((f,))[1:-1])
+                                                for t, f in entries)))
+    out.append('  [' + ';\n  '.join(r.strip() for r in rows) + '].')
+
+
+ITEMS.append(item_virtual_registry_order)
